@@ -15,9 +15,7 @@ Print Assumptions C06_merge.
 (* ... and the four clauses leave no freedom: what the code computes is the only such list. *)
 Theorem C06_merge_unique : forall old inj r : tagitems, NoDup (keys old) -> NoDup (keys inj) ->
   merge_spec old inj r -> r = override old inj.
-Proof.
-  exact (fun old inj r Ho Hi H => eq_trans (merge_spec_unique old inj r H Ho Hi) (eq_sym (override_merge old inj Ho Hi))).
-Qed.
+Proof. exact merge_spec_override_unique. Qed.
 Print Assumptions C06_merge_unique.
 
 (* newTagItems reads back exactly the items a conventional literal or comment was written from
